@@ -1803,6 +1803,20 @@ func buildExtensions(template *Certificate) (ret []pkix.Extension, err error) {
 	return append(ret[:n], template.ExtraExtensions...), nil
 }
 
+// issuerRDNSequence returns the issuer name for a CRL signed by cert: the
+// certificate's subject as it is encoded (RawSubject), so that attributes pkix.Name
+// has no field for (emailAddress, DC, ...) are kept; Subject for a certificate
+// that was built in memory.
+func issuerRDNSequence(cert *Certificate) pkix.RDNSequence {
+	if len(cert.RawSubject) > 0 {
+		var rdn pkix.RDNSequence
+		if rest, err := asn1.Unmarshal(cert.RawSubject, &rdn); err == nil && len(rest) == 0 {
+			return rdn
+		}
+	}
+	return cert.Subject.ToRDNSequence()
+}
+
 func subjectBytes(cert *Certificate) ([]byte, error) {
 	if len(cert.RawSubject) > 0 {
 		return cert.RawSubject, nil
@@ -1968,7 +1982,7 @@ func (c *Certificate) CreateCRL(rand io.Reader, priv interface{}, revokedCerts [
 	tbsCertList := pkix.TBSCertificateList{
 		Version:             1,
 		Signature:           signatureAlgorithm,
-		Issuer:              c.Subject.ToRDNSequence(),
+		Issuer:              issuerRDNSequence(c),
 		ThisUpdate:          now.UTC(),
 		NextUpdate:          expiry.UTC(),
 		RevokedCertificates: revokedCertsUTC,
@@ -2563,7 +2577,7 @@ func CreateRevocationList(rand io.Reader, template *RevocationList, issuer *Cert
 	tbsCertList := pkix.TBSCertificateList{
 		Version:    1, // v2
 		Signature:  signatureAlgorithm,
-		Issuer:     issuer.Subject.ToRDNSequence(),
+		Issuer:     issuerRDNSequence(issuer),
 		ThisUpdate: template.ThisUpdate.UTC(),
 		NextUpdate: template.NextUpdate.UTC(),
 		Extensions: []pkix.Extension{
